@@ -7,6 +7,7 @@ Tables (2-D): rows separated by `|`, values by `,`; an empty row is `e`.
 import SkVerif.Model.C14Interp
 import SkVerif.Model.C14Feat
 import SkVerif.Model.C14Slope
+import SkVerif.Model.C14Labels
 import SkVerif.Drv.Parse
 namespace SkVerif.Drv.C14
 open SkVerif SkVerif.C14 SkVerif.Drv
@@ -186,6 +187,17 @@ def handle (toks : List String) : String :=
     match parsePanel? x with
     | some x => showE showTable (tabularize x)
     | none => "bad-op"
+  | ["tabl", kind, labels, t0, x] =>
+    -- nested data frame with column labels `l1,l2,…` and cells indexed from `t0`: `names=table`
+    match parseKind? kind, parseNat? t0, parsePanel? x with
+    | some _, some t0, some x =>
+      showE (fun r => ",".intercalate (r.1.map (fun n => n.1 ++ "__" ++ toString n.2)) ++ "=" ++ showTable r.2)
+        (tabularizeL (labels.splitOn ",") t0 x)
+    | _, _, _ => "bad-op"
+  | ["concatl", kind, labels, x] =>
+    match parseKind? kind, parsePanel? x with
+    | some _, some x => showE showPanel (columnConcatL (labels.splitOn ",") x)
+    | _, _ => "bad-op"
   | ["concat", x] =>
     match parsePanel? x with
     | some x => showE showPanel (columnConcat x)
